@@ -47,7 +47,8 @@ LEVEL_TEXT = ("Exploration: every traversal the workload produces (3 entry point
               "Start nodes are also addressed as tree[-k] / tree[np.int64(i)]; half of the leave callbacks mutate the list they receive; histories on one tree object interleave traversals with in-place re-parenting through node handles, copies and re-rootings."
               " Generated trees come in several representations of the same values (strided, other dtypes / lists, one array as two columns, read-only where the harness never writes) and half of them were queried, a third put through aborted operations, before use. Chains of 80-257 nodes under the lowered recursion limit as well."
               " Size sweep 255 .. 8193 and big branched, permuted trees up to 10^5 nodes."
-              " Callbacks that start traversals themselves (another tree, the same tree from another node), each inner history held to the same specification.")
+              " Callbacks that start traversals themselves (another tree, the same tree from another node), each inner history held to the same specification."
+              " Chains of 1 500 / 4 000 nodes under recursion limits the caller raised.")
 LEVEL_NOTE = ("Trusts the harness's own children-list oracle (15 lines) and that callbacks are "
               "invoked in the calling thread; sibling order is deliberately unconstrained.")
 
